@@ -13,8 +13,7 @@ Definition push_verts (vs : list V) (p : V) : res (list V) :=
   let n := length vs in
   if Nat.leb 2 n then
     if vcompare (vnth vs (n - 2)) p then Ok (removelast vs) else
-    do col <- is_collinear (vnth vs (n - 2)) (vnth vs (n - 1)) p;
-    Ok (if col then replace_last vs p else vs ++ [p])
+    do keep <- push_keep vs p n n; Ok (firstn keep vs ++ [p])
   else Ok (vs ++ [p]).
 
 (** a corner that fails the collinearity test has three pairwise distinct points (for [compare]) *)
@@ -28,21 +27,22 @@ Qed.
 Lemma set_normal_verts (L L' : Loop R) : loop_set_normal L = Ok L' -> verts L' = verts L.
 Proof. unfold loop_set_normal. destruct (verts L) as [|a [|b [|c r]]] eqn:E; try discriminate. intros H. injection H as H. subst L'. cbn [verts set_normal_field]. exact E. Qed.
 
+Lemma push_tail_verts (L L' : Loop R) (vs : list V) :
+  (if Nat.eqb (length vs) 3 then loop_set_normal (set_verts L vs)
+   else if Nat.ltb (length vs) 3 then Ok (set_normal_field (set_verts L vs) vzero) else Ok (set_verts L vs)) = Ok L' -> verts L' = vs.
+Proof.
+  destruct (Nat.eqb _ 3); [intros H; apply set_normal_verts in H; exact H|].
+  destruct (Nat.ltb _ 3); intros H; injection H as H; subst L'; reflexivity.
+Qed.
 Lemma push_ok_verts (L L' : Loop R) (p : V) : loop_push L p = Ok L' -> push_verts (verts L) p = Ok (verts L').
 Proof.
-  unfold loop_push, loop_push_gen, loop_push_gen2, push_verts, llen. cbn [negb andb]. destruct (valid_to_add L p); cbn [rbind]; try discriminate.
+  unfold loop_push, push_verts, llen. destruct (valid_to_add L p); cbn [rbind]; try discriminate.
   destruct (Nat.leb 2 (length (verts L))).
   - destruct (vcompare _ p).
-    { cbn [rbind]. match goal with |- context [if ?b then loop_set_normal ?x else _] => destruct b end; intros H.
-      + apply set_normal_verts in H. rewrite H. reflexivity.
-      + injection H as H. subst L'. reflexivity. }
-    destruct (is_collinear _ _ p) as [col| |]; cbn [rbind]; try discriminate.
-    match goal with |- context [if ?b then loop_set_normal ?x else _] => destruct b end; intros H.
-    + apply set_normal_verts in H. rewrite H. reflexivity.
-    + injection H as H. subst L'. reflexivity.
-  - cbn [rbind]. match goal with |- context [if ?b then loop_set_normal ?x else _] => destruct b end; intros H.
-    + apply set_normal_verts in H. rewrite H. reflexivity.
-    + injection H as H. subst L'. reflexivity.
+    { cbn [rbind]. intros H. apply push_tail_verts in H. rewrite H. reflexivity. }
+    destruct (push_keep _ p _ _) as [keep| |]; cbn [rbind]; try discriminate.
+    intros H. apply push_tail_verts in H. rewrite H. reflexivity.
+  - cbn [rbind]. intros H. apply push_tail_verts in H. rewrite H. reflexivity.
 Qed.
 
 (** the last two entries of a list *)
@@ -53,16 +53,39 @@ Proof.
   - replace (length l + 2 - 2)%nat with (length l + 0)%nat by lia. rewrite app_nth2_plus. reflexivity.
   - replace (length l + 2 - 1)%nat with (length l + 1)%nat by lia. rewrite app_nth2_plus. reflexivity.
 Qed.
-Lemma push_verts_last2 (l : list V) (x a p : V) : vcompare x p = false ->
-  push_verts (l ++ [x; a]) p = do col <- is_collinear x a p; Ok (if col then l ++ [x; p] else l ++ [x; a; p]).
+Lemma push_keep_step (vs : list V) (p : V) (keep f : nat) : (2 <= keep)%nat ->
+  push_keep vs p keep (S f) = do col <- is_collinear (vnth vs (keep - 2)) (vnth vs (keep - 1)) p;
+                             if col then push_keep vs p (keep - 1) f else Ok keep.
+Proof. intros H. cbn [push_keep]. apply Nat.leb_le in H. rewrite H. reflexivity. Qed.
+(** the corner at the last vertex is genuine: the point is appended *)
+Lemma push_verts_last2 (l : list V) (x a p : V) : vcompare x p = false -> is_collinear x a p = Ok false ->
+  push_verts (l ++ [x; a]) p = Ok (l ++ [x; a; p]).
 Proof.
-  intros Hxp. unfold push_verts. destruct (vnth_last2 l x a) as [E1 E2]. rewrite E1, E2.
-  assert (Hl : Nat.leb 2 (length (l ++ [x; a])) = true) by (apply Nat.leb_le; rewrite app_length; cbn [length]; lia).
-  rewrite Hl, Hxp. destruct (is_collinear x a p) as [col| |]; cbn [rbind]; try reflexivity.
-  destruct col.
-  - unfold replace_last. replace (l ++ [x; a]) with ((l ++ [x]) ++ [a]) by (rewrite <- app_assoc; reflexivity).
-    rewrite removelast_last. rewrite <- app_assoc. reflexivity.
-  - rewrite <- app_assoc. reflexivity.
+  intros Hxp C. unfold push_verts. destruct (vnth_last2 l x a) as [E1 E2]. rewrite E1.
+  assert (Hn : length (l ++ [x; a]) = S (S (length l))) by (rewrite app_length; cbn [length]; lia).
+  assert (Hl : Nat.leb 2 (length (l ++ [x; a])) = true) by (apply Nat.leb_le; lia).
+  rewrite Hl, Hxp. rewrite Hn at 2. rewrite push_keep_step by lia. rewrite E1, E2, C. cbn [rbind].
+  rewrite firstn_all. rewrite <- app_assoc. reflexivity.
+Qed.
+(** the last vertex is redundant and the corner it exposes is genuine: the point replaces the last vertex *)
+Lemma push_verts_last3 (l : list V) (w x a p : V) : vcompare x p = false -> is_collinear x a p = Ok true -> is_collinear w x p = Ok false ->
+  push_verts (l ++ [w; x; a]) p = Ok (l ++ [w; x; p]).
+Proof.
+  intros Hxp C1 C2. unfold push_verts.
+  replace (l ++ [w; x; a]) with ((l ++ [w]) ++ [x; a]) by (rewrite <- app_assoc; reflexivity).
+  destruct (vnth_last2 (l ++ [w]) x a) as [E1 E2]. rewrite E1.
+  assert (Hn : length ((l ++ [w]) ++ [x; a]) = S (S (S (length l)))) by (rewrite !app_length; cbn [length]; lia).
+  assert (Hl : Nat.leb 2 (length ((l ++ [w]) ++ [x; a])) = true) by (apply Nat.leb_le; lia).
+  rewrite Hl, Hxp. rewrite Hn at 2. rewrite push_keep_step by lia. rewrite E1, E2, C1. cbn [rbind].
+  rewrite Hn. replace (S (S (S (length l))) - 1)%nat with (S (S (length l))) by lia. rewrite push_keep_step by lia.
+  replace ((l ++ [w]) ++ [x; a]) with ((l ++ [w; x]) ++ [a]) by (rewrite <- !app_assoc; reflexivity).
+  assert (F1 : vnth ((l ++ [w; x]) ++ [a]) (S (S (length l)) - 2) = w).
+  { unfold vnth. rewrite app_nth1 by (rewrite app_length; cbn [length]; lia). replace (S (S (length l)) - 2)%nat with (length l + 0)%nat by lia. rewrite app_nth2_plus. reflexivity. }
+  assert (F2 : vnth ((l ++ [w; x]) ++ [a]) (S (S (length l)) - 1) = x).
+  { unfold vnth. rewrite app_nth1 by (rewrite app_length; cbn [length]; lia). replace (S (S (length l)) - 1)%nat with (length l + 1)%nat by lia. rewrite app_nth2_plus. reflexivity. }
+  rewrite F1, F2, C2. cbn [rbind].
+  replace (S (S (length l))) with (length (l ++ [w; x]) + 0)%nat by (rewrite app_length; cbn [length]; lia).
+  rewrite firstn_app_2. cbn [firstn]. rewrite app_nil_r, <- app_assoc. reflexivity.
 Qed.
 
 (** ** a point exactly on the segment from a towards b is collinear for the library's test
@@ -94,11 +117,10 @@ Proof.
   cbn zeta. intros Hv C1 C2 Hc P1 P2 P3.
   apply push_ok_verts in P1. apply push_ok_verts in P2. apply push_ok_verts in P3.
   destruct (is_collinear_false_distinct _ _ _ C1) as (_ & Dxm & _). destruct (is_collinear_false_distinct _ _ _ C2) as (_ & Dxb & Dab).
-  rewrite Hv in P1, P3. rewrite push_verts_last2 in P1 by exact Dxm. rewrite push_verts_last2 in P3 by exact Dxb. rewrite C1 in P1. rewrite C2 in P3. cbn [rbind] in P1, P3.
+  rewrite Hv in P1, P3. rewrite (push_verts_last2 _ _ _ _ Dxm C1) in P1. rewrite (push_verts_last2 _ _ _ _ Dxb C2) in P3.
   injection P1 as P1. injection P3 as P3.
-  rewrite <- P1 in P2. replace (l ++ [x; a; vadd a (vscale (vsub b a) s)]) with ((l ++ [x]) ++ [a; vadd a (vscale (vsub b a) s)]) in P2 by (rewrite <- app_assoc; reflexivity).
-  rewrite push_verts_last2 in P2 by exact Dab. rewrite (is_collinear_on_line a b s Hc) in P2. cbn [rbind] in P2. injection P2 as P2.
-  rewrite <- app_assoc in P2. cbn [app] in P2. split; [symmetry; exact P2|]. rewrite <- P3, <- P2. reflexivity.
+  rewrite <- P1 in P2. rewrite (push_verts_last3 l x a _ b Dab (is_collinear_on_line a b s Hc) C2) in P2. injection P2 as P2.
+  split; [symmetry; exact P2|]. rewrite <- P3, <- P2. reflexivity.
 Qed.
 
 (** ** an outline all of whose corners are genuine: every accepted push appends *)
@@ -146,8 +168,8 @@ Proof.
         assert (C : is_collinear x a p = Ok false).
         { apply (genuine_chain_app_last2 l''). apply (genuine_chain_prefix _ pts).
           rewrite <- !app_assoc in G |- *. cbn [app] in G |- *. exact G. }
-        rewrite push_verts_last2 in E by (apply (is_collinear_false_distinct _ _ _ C)).
-        rewrite C in E. cbn [rbind] in E. injection E as E. rewrite <- E. rewrite <- app_assoc. reflexivity. }
+        rewrite (push_verts_last2 _ _ _ _ (proj1 (proj2 (is_collinear_false_distinct _ _ _ C))) C) in E.
+        injection E as E. rewrite <- E. rewrite <- app_assoc. reflexivity. }
     rewrite (IH L1 L'); [rewrite E1, <- app_assoc; reflexivity | rewrite E1, <- app_assoc; exact G | exact H].
 Qed.
 
@@ -158,8 +180,17 @@ Lemma close_genuine (L : Loop R) :
   is_collinear (vnth (verts L) (llen L - 1)) (vnth (verts L) 0) (vnth (verts L) 1) = Ok false ->
   verts (fst (loop_close L)) = verts L.
 Proof.
-  unfold loop_close. destruct (Nat.ltb (llen L) 3); [discriminate|]. intros H C1 C2. revert H. rewrite C1.
-  destruct (valid_to_add L _) as [u| |]; cbn [snd]; try discriminate. rewrite C2.
+  unfold loop_close. destruct (lclosed L) eqn:Ecl; [discriminate|]. destruct (Nat.ltb (llen L) 3) eqn:E3; [discriminate|]. intros H C1 C2. revert H.
+  assert (P1 : pop_redundant (verts L) (llen L) = (verts L, Ok tt)).
+  { unfold llen in *. destruct (length (verts L)) as [|f] eqn:En; [discriminate|]. cbn [pop_redundant]. unfold last_is_redundant. rewrite En, E3.
+    rewrite C1. reflexivity. }
+  rewrite P1. fold (llen L). rewrite E3.
+  assert (EL : set_verts L (verts L) = L) by (destruct L; reflexivity). rewrite EL.
+  destruct (valid_to_add L _) as [u| |]; cbn [snd]; try discriminate.
+  assert (P2 : drop_first_redundant (verts L) (llen L) = (verts L, Ok tt)).
+  { unfold llen in *. destruct (length (verts L)) as [|f] eqn:En; [discriminate|]. cbn [drop_first_redundant]. rewrite En, E3.
+    rewrite C2. reflexivity. }
+  rewrite P2. fold (llen L). rewrite E3, EL.
   match goal with |- context [match loop_set_area ?l with _ => _ end] => destruct (loop_set_area l) as [L4| |] eqn:E4 end; cbn [snd]; try discriminate.
   destruct (loop_set_perimeter L4) as [L5| |] eqn:E5; cbn [snd fst]; try discriminate. intros _.
   unfold loop_set_perimeter in E5. destruct (negb (lclosed L4)); [discriminate|]. destruct (vis_zero (lnormal L4)); [discriminate|].
@@ -180,7 +211,7 @@ Theorem build_genuine (pts : list V) (L : Loop R) :
 Proof.
   intros G P Cl.
   assert (Hlen : (3 <= llen L)%nat).
-  { unfold loop_close in Cl. destruct (Nat.ltb (llen L) 3) eqn:E; [discriminate|]. apply Nat.ltb_ge in E. exact E. }
+  { unfold loop_close in Cl. destruct (lclosed L); [discriminate|]. destruct (Nat.ltb (llen L) 3) eqn:E; [discriminate|]. apply Nat.ltb_ge in E. exact E. }
   destruct pts as [|a [|b pts]].
   - cbn in P. injection P as P. subst L. cbn in Hlen. lia.
   - assert (E : verts L = [a]) by (apply (push_list_genuine [a] loop_new L); [exact I | exact P]). unfold llen in Hlen. rewrite E in Hlen. cbn in Hlen. lia.
